@@ -210,6 +210,9 @@ pub fn run_program<A: Z>(p: &Program, ar: &Arenas) -> Exec {
     let mut i_called = true;
     // after Z_DATA_ERROR the contents of the history window are unspecified: ResetKeep is then run as Reset
     let mut i_error = false;
+    // deflateResetKeep (undocumented; keeps window and match state) is only exercised at points where no
+    // consumed-but-uncompressed input is held: after init/reset, a completed sync/full flush or stream end
+    let mut d_dirty = [false; 2];
     let mut d_raw = [false; 2];
     let mut d_called = [true; 2];
     let mut ipos = 0usize;
@@ -233,6 +236,7 @@ pub fn run_program<A: Z>(p: &Program, ar: &Arenas) -> Exec {
                 d_raw[0] = *wbits < 0;
                 d_called[0] = false;
                 d_params[0] = (*level, *method, *wbits, *mem, *strategy);
+                d_dirty[0] = false;
                 d_hdr[0] = None;
             }
             Op::DDeflate { which, in_len, out_len, flush } => {
@@ -248,6 +252,12 @@ pub fn run_program<A: Z>(p: &Program, ar: &Arenas) -> Exec {
                 s.avail_out = oc as u32;
                 r.rc = unsafe { A::deflate(s, *flush) } as i64;
                 d_called[w] = true;
+                if ic as u32 != s.avail_in {
+                    d_dirty[w] = true;
+                }
+                if r.rc == Z_STREAM_END as i64 || (r.rc == 0 && s.avail_out > 0 && s.avail_in == 0 && matches!(*flush, Z_SYNC_FLUSH | Z_FULL_FLUSH)) {
+                    d_dirty[w] = false;
+                }
                 r.din = (ic as u32).wrapping_sub(s.avail_in);
                 r.dout = (oc as u32).wrapping_sub(s.avail_out);
                 if r.din as usize <= ic && r.dout as usize <= oc {
@@ -355,7 +365,11 @@ pub fn run_program<A: Z>(p: &Program, ar: &Arenas) -> Exec {
                 if r.rc == 0 {
                     d_out[*which].clear();
                     d_called[*which] = false;
+                    d_dirty[*which] = false;
                 }
+            }
+            Op::DResetKeep { which } if d_dirty[*which] && !d[*which].state.is_null() => {
+                r.rc = -999;
             }
             Op::DResetKeep { which } => {
                 r.rc = unsafe { A::deflateResetKeep(&mut *d[*which]) } as i64;
@@ -378,6 +392,7 @@ pub fn run_program<A: Z>(p: &Program, ar: &Arenas) -> Exec {
                     d_raw[1] = d_raw[0];
                     d_called[1] = d_called[0];
                     d_params[1] = d_params[0];
+                    d_dirty[1] = d_dirty[0];
                     d_hdr[1] = d_hdr[0];
                 }
             }
